@@ -295,8 +295,8 @@ fn peephole3_helper(lines: &[Line], index: usize, ret: &mut Vec<Line>) -> bool {
                         Instr::PushInt(a),
                         Instr::PushInt(b),
                         Instr::PowInt(Reg::Top, Reg::Top, Reg::Top),
-                    ) if a.checked_pow(*b as u32).is_some() => {
-                        let c = a.pow(*b as u32);
+                    ) if crate::vm::checked_pow_int(a, *b).is_some() => {
+                        let c = crate::vm::checked_pow_int(a, *b).unwrap();
                         ret.push(Line::Instr {
                             instr: Instr::PushInt(c),
                             lineno,
